@@ -507,6 +507,7 @@ func emitGenOps(g *G, nDbc, seqPerMsg, seqLen int, which string) {
 				for k := 0; k < seqPerMsg; k++ {
 					g.Emit("gmsg %s %s un:%s,fr,rt", h, m.name, m.validFrame(g))
 					g.Emit("gmsg %s %s un:%s,un:%s", h, m.name, m.validFrame(g), m.badFrame(g))
+					g.Emit("gmsg %s %s un:%s,un:%s,fr", h, m.name, m.validFrame(g), m.validFrame(g)) // into a message that already holds a frame
 					g.Emit("gdisp %s %s", h, m.validFrame(g))
 					g.Emit("gdisp %s %s", h, m.badFrame(g))
 				}
